@@ -260,7 +260,7 @@ def run(ck):
     specs = list(latt.named_specs())
     if ck.quick:
         rng.shuffle(specs); specs = specs[:7]
-    nrand = ck.n(26, 200)
+    nrand = ck.n(26, 600)
     for k in range(nrand):
         dim = 2 if k % 3 == 0 else 3
         specs.append(latt.random_spec(rng, dim=dim, maxatoms=ck.n(8, 12)))
